@@ -50,7 +50,7 @@ def enumerate_to_range(fnode):
     return fn
 
 
-def aug_from_binop(fnode):
+def aug_from_binop(fnode, keep=frozenset()):
     fn = copy.deepcopy(fnode)
     for n in ast.walk(fn):
         for f in ('body', 'orelse', 'finalbody'):
@@ -59,7 +59,7 @@ def aug_from_binop(fnode):
                 continue
             for i, s in enumerate(blk):
                 if isinstance(s, ast.Assign) and len(s.targets) == 1 and isinstance(s.targets[0], ast.Name) and \
-                        isinstance(s.value, ast.BinOp) and isinstance(s.value.op, ast.Add):
+                        isinstance(s.value, ast.BinOp) and isinstance(s.value.op, ast.Add) and shape_key(s) not in keep:
                     nm = s.targets[0].id
                     l, r = s.value.left, s.value.right
                     other = r if isinstance(l, ast.Name) and l.id == nm else (l if isinstance(r, ast.Name) and r.id == nm else None)
@@ -292,3 +292,361 @@ def class_method(fi):
     as loops, integer temporaries and aliases of table rows inlined"""
     from .canon import canonical, CLASS_L_ROLES
     return wrap(canonical(fi, CLASS_L_ROLES), dictcomp_to_loops, inline_scalar_temps, inline_self_aliases)
+
+
+# ======================================================================================================
+# load-time normalisation of a whole function (sa/loader.py): the pinned tree's vocabulary is the canonical form
+PURE_CALLS = {'len', 'min', 'max', 'abs', 'int'}
+
+
+def _movable(e):
+    """expression without side effects or allocation whose value depends only on its operands"""
+    if isinstance(e, (ast.Name, ast.Constant)):
+        return True
+    if isinstance(e, ast.Attribute):
+        return _movable(e.value)
+    if isinstance(e, ast.Subscript):
+        s = e.slice
+        parts = [s.lower, s.upper, s.step] if isinstance(s, ast.Slice) else (list(s.elts) if isinstance(s, ast.Tuple) else [s])
+        return _movable(e.value) and all(p is None or (_movable(p) if not isinstance(p, ast.Slice) else True) for p in parts)
+    if isinstance(e, ast.UnaryOp):
+        return _movable(e.operand)
+    if isinstance(e, ast.BinOp):
+        return _movable(e.left) and _movable(e.right)
+    if isinstance(e, ast.Compare):
+        return _movable(e.left) and all(_movable(c) for c in e.comparators)
+    if isinstance(e, (ast.Tuple, ast.List)):
+        return all(_movable(x) for x in e.elts)
+    if isinstance(e, ast.Call) and isinstance(e.func, ast.Name) and e.func.id in PURE_CALLS and not e.keywords:
+        return all(_movable(a) for a in e.args)
+    return False
+
+
+def split_tuple_assigns(fnode, keep=frozenset()):
+    """a, b = x, y  ->  a = x ; b = y   when no target (or a prefix object of a target) is read by a later component"""
+    fn = copy.deepcopy(fnode)
+    for n in list(ast.walk(fn)):
+        for f in ('body', 'orelse', 'finalbody'):
+            blk = getattr(n, f, None)
+            if not (isinstance(blk, list) and blk and isinstance(blk[0], ast.stmt)):
+                continue
+            i = 0
+            while i < len(blk):
+                s = blk[i]
+                if isinstance(s, ast.Assign) and len(s.targets) == 1 and isinstance(s.targets[0], ast.Tuple) and \
+                        isinstance(s.value, ast.Tuple) and len(s.targets[0].elts) == len(s.value.elts) and \
+                        not any(isinstance(t, ast.Starred) for t in s.targets[0].elts) and shape_key(s) not in keep:
+                    tg, vs = s.targets[0].elts, s.value.elts
+                    ok = True
+                    for k in range(1, len(vs)):
+                        read = {norm(x) for x in ast.walk(vs[k]) if isinstance(x, (ast.Name, ast.Subscript, ast.Attribute))}
+                        for t in tg[:k]:
+                            tt = norm(t)
+                            base = tt.split('[')[0].split('.')[0]
+                            if tt in read or (isinstance(t, ast.Name) and t.id in {norm(x) for x in ast.walk(vs[k])
+                                                                                    if isinstance(x, ast.Name)}):
+                                ok = False
+                            if not isinstance(t, ast.Name) and any(r == tt or r.startswith(tt) for r in read):
+                                ok = False
+                    if ok:
+                        new = [ast.copy_location(ast.Assign(targets=[t], value=v), s) for t, v in zip(tg, vs)]
+                        blk[i:i + 1] = new
+                        i += len(new)
+                        continue
+                i += 1
+    ast.fix_missing_locations(fn)
+    return fn
+
+
+def inline_unknown_temps(known, keep=frozenset()):
+    """pass factory: T = <movable expr>, T not a name of the pinned version of the function, bound exactly once, used only
+    in later statements of the block of its definition (nested blocks included), no operand (nor an object reachable
+    from an operand's base name) stored to in between  ->  uses replaced, definition dropped"""
+    known = set(known)
+
+    def run(fnode):
+        fn = copy.deepcopy(fnode)
+        for _ in range(4):
+            stores = _store_counts(fn)
+            changed = False
+            for n in list(ast.walk(fn)):
+                for f in ('body', 'orelse', 'finalbody'):
+                    blk = getattr(n, f, None)
+                    if not (isinstance(blk, list) and blk and isinstance(blk[0], ast.stmt)):
+                        continue
+                    i = 0
+                    while i < len(blk):
+                        s = blk[i]
+                        if isinstance(s, ast.Assign) and len(s.targets) == 1 and isinstance(s.targets[0], ast.Name) and \
+                                s.targets[0].id not in known and stores.get(s.targets[0].id) == 1 and _movable(s.value) and \
+                                shape_key(s) not in keep and not _mutated_through(fn, s.targets[0].id):
+                            t = s.targets[0].id
+                            rest = blk[i + 1:]
+                            total = sum(1 for x in ast.walk(fn) if isinstance(x, ast.Name) and x.id == t)
+                            inrest = sum(1 for r in rest for x in ast.walk(r) if isinstance(x, ast.Name) and x.id == t)
+                            operands = {x.id for x in ast.walk(s.value) if isinstance(x, ast.Name)}
+                            touched = set()
+                            for r in rest:
+                                for x in ast.walk(r):
+                                    if isinstance(x, ast.Name) and isinstance(x.ctx, (ast.Store, ast.Del)):
+                                        touched.add(x.id)
+                                    elif isinstance(x, (ast.Subscript, ast.Attribute)) and isinstance(x.ctx, (ast.Store, ast.Del)):
+                                        b = x
+                                        while isinstance(b, (ast.Subscript, ast.Attribute)):
+                                            b = b.value
+                                        if isinstance(b, ast.Name):
+                                            touched.add(b.id)
+                                    elif isinstance(x, ast.Call) and isinstance(x.func, ast.Attribute) and \
+                                            x.func.attr in ('append', 'extend', 'insert', 'pop', 'remove', 'sort', 'reverse',
+                                                            'update', 'clear', 'add', 'fill'):
+                                        b = x.func.value
+                                        while isinstance(b, (ast.Subscript, ast.Attribute)):
+                                            b = b.value
+                                        if isinstance(b, ast.Name):
+                                            touched.add(b.id)
+                            if total - 1 == inrest and not (operands & touched):
+                                blk[i + 1:] = [_SubstName(t, s.value).visit(r) for r in rest]
+                                del blk[i]
+                                changed = True
+                                continue
+                        i += 1
+            if not changed:
+                break
+        ast.fix_missing_locations(fn)
+        return fn
+    return run
+
+
+def _length_name(fn, base_text):
+    """a local of the function that holds the number of sites of the object whose list `base_text` is (X.A -> X.nsites)"""
+    obj = base_text[:-2] if base_text.endswith('.A') else None
+    for s in ast.walk(fn):
+        if isinstance(s, ast.Assign) and len(s.targets) == 1 and isinstance(s.targets[0], ast.Name):
+            v = norm(s.value)
+            if v == f'len({base_text})' or (obj and v == f'{obj}.nsites'):
+                return ast.Name(id=s.targets[0].id, ctx=ast.Load())
+    return None
+
+
+def index_loops(fnode, keep=frozenset()):
+    """for x in S[a:b] / for x, y in zip(S1[a:b], S2[a:b]) / for k, .. in enumerate(.., start=a)
+         ->  for k in range(a, <end>) with x -> S[k] ...    (S.. not rebound or resized in the loop body)"""
+    fn = copy.deepcopy(fnode)
+    counter = [0]
+
+    def seq_info(e):
+        """(base expr, lower, upper) of `S` / `S[a:b]`; None otherwise"""
+        if isinstance(e, ast.Subscript) and isinstance(e.slice, ast.Slice) and e.slice.step is None and _movable(e.value):
+            return e.value, e.slice.lower, e.slice.upper
+        if isinstance(e, (ast.Name, ast.Attribute)) and _movable(e):
+            return e, None, None
+        return None
+
+    def end_expr(base, upper):
+        ln = _length_name(fn, norm(base)) or ast.Call(func=ast.Name(id='len', ctx=ast.Load()), args=[copy.deepcopy(base)],
+                                                      keywords=[])
+        if upper is None:
+            return ln
+        if isinstance(upper, ast.UnaryOp) and isinstance(upper.op, ast.USub) and isinstance(upper.operand, ast.Constant):
+            return ast.BinOp(left=ln, op=ast.Sub(), right=copy.deepcopy(upper.operand))
+        if isinstance(upper, ast.Constant) and isinstance(upper.value, int) and upper.value < 0:
+            return ast.BinOp(left=ln, op=ast.Sub(), right=ast.Constant(value=-upper.value))
+        return copy.deepcopy(upper)
+    for loop in [n for n in ast.walk(fn) if isinstance(n, ast.For)]:
+        it, tgt = loop.iter, loop.target
+        if shape_key(loop) in keep:
+            continue
+        start = None
+        kname = None
+        if isinstance(it, ast.Call) and norm(it.func) == 'enumerate' and it.args and isinstance(tgt, ast.Tuple) and \
+                len(tgt.elts) == 2 and isinstance(tgt.elts[0], ast.Name):
+            st = [k.value for k in it.keywords if k.arg == 'start'] or list(it.args[1:2])
+            start = st[0] if st else ast.Constant(value=0)
+            kname = tgt.elts[0].id
+            it, tgt = it.args[0], tgt.elts[1]
+        seqs, names = None, None
+        if isinstance(it, ast.Call) and norm(it.func) == 'zip' and not it.keywords and isinstance(tgt, ast.Tuple) and \
+                len(tgt.elts) == len(it.args) and all(isinstance(x, ast.Name) for x in tgt.elts):
+            seqs, names = list(it.args), [x.id for x in tgt.elts]
+        elif isinstance(tgt, ast.Name):
+            seqs, names = [it], [tgt.id]
+        if seqs is None:
+            continue
+        infos = [seq_info(x) for x in seqs]
+        if any(i is None for i in infos):
+            continue
+        if start is None and kname is None and len(seqs) == 1 and infos[0][1] is None and infos[0][2] is None and \
+                not isinstance(seqs[0], ast.Subscript):
+            # plain `for x in S`: only lists of site tensors are rewritten (S = X.A); other iterables may be anything
+            if not norm(infos[0][0]).endswith('.A'):
+                continue
+        lowers = {norm(i[1]) if i[1] is not None else '0' for i in infos}
+        if len(lowers) != 1:
+            continue
+        lo = infos[0][1] if infos[0][1] is not None else ast.Constant(value=0)
+        if start is not None and norm(start) != norm(lo):
+            continue
+        ends = {norm(end_expr(i[0], i[2])) for i in infos}
+        bases = [norm(i[0]) for i in infos]
+        # zip stops at the shortest: only sequences of one family (X.A lists of operands asserted equally long) are merged
+        end = end_expr(infos[0][0], infos[0][2])
+        if len(ends) != 1 and not all(b.endswith('.A') for b in bases):
+            continue
+        body_stores = set()
+        for b in loop.body:
+            for x in ast.walk(b):
+                if isinstance(x, ast.Name) and isinstance(x.ctx, ast.Store):
+                    body_stores.add(x.id)
+        base_names = {n.id for i in infos for n in ast.walk(i[0]) if isinstance(n, ast.Name)}
+        if set(names) & body_stores or (kname and kname in body_stores) or base_names & body_stores:
+            continue
+        resized = any(isinstance(x, ast.Call) and isinstance(x.func, ast.Attribute) and
+                      x.func.attr in ('append', 'pop', 'insert', 'remove', 'extend', 'clear') and norm(x.func.value) in bases
+                      for b in loop.body for x in ast.walk(b))
+        if resized:
+            continue
+        if kname is None:
+            counter[0] += 1
+            kname = f'k__n{counter[0]}'
+        for nm, inf in zip(names, infos):
+            repl = ast.Subscript(value=copy.deepcopy(inf[0]), slice=ast.Name(id=kname, ctx=ast.Load()), ctx=ast.Load())
+            loop.body = [_SubstName(nm, repl).visit(b) for b in loop.body]
+        loop.target = ast.copy_location(ast.Name(id=kname, ctx=ast.Store()), loop.target)
+        args = [end] if norm(lo) == '0' else [copy.deepcopy(lo), end]
+        loop.iter = ast.copy_location(ast.Call(func=ast.Name(id='range', ctx=ast.Load()), args=args, keywords=[]), loop.iter)
+    ast.fix_missing_locations(fn)
+    return fn
+
+
+def normalise_function(fnode, known_locals, known_spellings=()):
+    keep = frozenset(known_spellings)
+    fn = reduce_to_loop(fnode)
+    fn = split_tuple_assigns(fn, keep)
+    fn = aug_from_binop(fn, keep)
+    fn = index_loops(fn, keep)
+    fn = inline_unknown_temps(known_locals, keep)(fn)
+    return fn
+
+
+class _Abstract(ast.NodeTransformer):
+    def visit_Name(self, node):
+        return ast.copy_location(ast.Name(id='_', ctx=ast.Load()), node)
+
+
+def shape_key(node):
+    """text of a loop header / assignment with every local name replaced by `_` (attribute and function names that are
+    written as attributes stay; a bare function name becomes `_` too)"""
+    if isinstance(node, ast.For):
+        t = _Abstract().visit(copy.deepcopy(node.target))
+        i = _Abstract().visit(copy.deepcopy(node.iter))
+        return 'for ' + ' '.join(ast.unparse(t).split()) + ' in ' + ' '.join(ast.unparse(i).split())
+    n = _Abstract().visit(copy.deepcopy(node))
+    return ' '.join(ast.unparse(n).split())
+
+
+def _mutated_through(fn, name):
+    """is the object bound to `name` stored into / mutated through that name anywhere (name[..] = .., name.x = ..,
+    name.append(..), name += ..)?  Such a name is a variable in its own right, not a temporary"""
+    for x in ast.walk(fn):
+        if isinstance(x, (ast.Subscript, ast.Attribute)) and isinstance(x.ctx, (ast.Store, ast.Del)):
+            b = x
+            while isinstance(b, (ast.Subscript, ast.Attribute)):
+                b = b.value
+            if isinstance(b, ast.Name) and b.id == name:
+                return True
+        if isinstance(x, ast.AugAssign):
+            b = x.target
+            while isinstance(b, (ast.Subscript, ast.Attribute)):
+                b = b.value
+            if isinstance(b, ast.Name) and b.id == name:
+                return True
+        if isinstance(x, ast.Call) and isinstance(x.func, ast.Attribute) and \
+                x.func.attr in ('append', 'extend', 'insert', 'pop', 'remove', 'sort', 'reverse', 'update', 'clear', 'add',
+                                'fill', 'setdefault', 'eliminate_zeros'):
+            b = x.func.value
+            while isinstance(b, (ast.Subscript, ast.Attribute)):
+                b = b.value
+            if isinstance(b, ast.Name) and b.id == name:
+                return True
+    return False
+
+
+def reduce_to_loop(fnode):
+    """X = reduce(lambda a, x: E, S, I)  /  return reduce(...)   ->   a = I ; for x in S: a = E ; X = a  /  return a"""
+    fn = copy.deepcopy(fnode)
+    used = {n.id for n in ast.walk(fn) if isinstance(n, ast.Name)}
+    cnt = [0]
+    for n in list(ast.walk(fn)):
+        for f in ('body', 'orelse', 'finalbody'):
+            blk = getattr(n, f, None)
+            if not (isinstance(blk, list) and blk and isinstance(blk[0], ast.stmt)):
+                continue
+            i = 0
+            while i < len(blk):
+                s_ = blk[i]
+                v = s_.value if isinstance(s_, (ast.Assign, ast.Return)) else None
+                if isinstance(v, ast.Call) and norm(v.func) in ('reduce', 'functools.reduce') and len(v.args) == 3 and \
+                        isinstance(v.args[0], ast.Lambda) and len(v.args[0].args.args) == 2 and not v.keywords:
+                    lam, seq, init = v.args
+                    a, x = (p.arg for p in lam.args.args)
+                    ren = {}
+                    for nm in (a, x):
+                        if nm in used - {a, x} or any(isinstance(m, ast.Name) and m.id == nm for m in ast.walk(seq)):
+                            cnt[0] += 1
+                            ren[nm] = f'{nm}__r{cnt[0]}'
+                    body = copy.deepcopy(lam.body)
+                    for old_, new_ in ren.items():
+                        body = _SubstName(old_, ast.Name(id=new_, ctx=ast.Load())).visit(body)
+                    a2, x2 = ren.get(a, a), ren.get(x, x)
+                    pre = [ast.Assign(targets=[ast.Name(id=a2, ctx=ast.Store())], value=init),
+                           ast.For(target=ast.Name(id=x2, ctx=ast.Store()), iter=seq,
+                                   body=[ast.Assign(targets=[ast.Name(id=a2, ctx=ast.Store())], value=body)], orelse=[])]
+                    if isinstance(s_, ast.Return):
+                        last = ast.Return(value=ast.Name(id=a2, ctx=ast.Load()))
+                    else:
+                        last = ast.Assign(targets=s_.targets, value=ast.Name(id=a2, ctx=ast.Load()))
+                    new = pre + [last]
+                    for o in new:
+                        ast.copy_location(o, s_)
+                    blk[i:i + 1] = new
+                    i += len(new)
+                    continue
+                i += 1
+    ast.fix_missing_locations(fn)
+    return fn
+
+
+def result_var_to_returns(fnode):
+    """... if c: A; R = x  else: B; R = y ; return R      ->      if c: A; return x  else: B; return y
+    (R a plain local that is only assigned as the last statement of the arms of the conditional right before the
+    final return)"""
+    fn = copy.deepcopy(fnode)
+    body = fn.body
+    if len(body) < 2 or not (isinstance(body[-1], ast.Return) and isinstance(body[-1].value, ast.Name)):
+        return fn
+    R = body[-1].value.id
+    prev = body[-2]
+
+    def push(stmts):
+        """stmts ends by assigning R (possibly inside a trailing if/else): turn those assignments into returns"""
+        if not stmts:
+            return False
+        last = stmts[-1]
+        if isinstance(last, ast.Assign) and len(last.targets) == 1 and isinstance(last.targets[0], ast.Name) and \
+                last.targets[0].id == R:
+            stmts[-1] = ast.copy_location(ast.Return(value=last.value), last)
+            return True
+        if isinstance(last, ast.If) and last.orelse:
+            a = push(last.body)
+            b = push(last.orelse)
+            return a and b
+        return False
+    uses = sum(1 for n in ast.walk(fn) if isinstance(n, ast.Name) and n.id == R)
+    trial = copy.deepcopy(prev)
+    if isinstance(trial, ast.If) and trial.orelse and push(trial.body) and push(trial.orelse):
+        assigned = sum(1 for n in ast.walk(prev) if isinstance(n, ast.Name) and n.id == R and isinstance(n.ctx, ast.Store))
+        reads = sum(1 for n in ast.walk(prev) if isinstance(n, ast.Name) and n.id == R and isinstance(n.ctx, ast.Load))
+        if reads == 0 and uses == assigned + 1:
+            fn.body = body[:-2] + [trial]
+    ast.fix_missing_locations(fn)
+    return fn
